@@ -95,9 +95,19 @@ class C05(AstKindProp):
         res = [("norm_chain", dict(op, _arg=arg), impl)]
         if back_j is not None:
             res += entry_ops(c["ir"], back_j, op["kinds"], c["chain"], arg)
+        # the same chain with every hop at STATEMENT level (StmtChain.lean), compared exactly (types modulo ast.unparse)
+        if not c.get("fan_out"):
+            from ..astkinds import _canon_types_ir
+
+            impl2 = {"ok": irutil.canon_ir(_canon_types_ir(back_j))} if back_j is not None else impl
+            res.append(("stmt_chain", {"op": "stmt_chain", "ir": c["ir"], "chain": c["chain"], "emit": c.get("edd", True), "inline": c["inline"]}, impl2))
         return res
 
     def canon_model(self, layer, op, ans):
+        if layer == "stmt_chain":
+            from ..astkinds import _canon_types_ir
+
+            return {"ok": irutil.canon_ir(_canon_types_ir(ans["ok"]))} if "ok" in ans else ans
         if "ok" in ans:
             j = dict(ans["ok"], doc="") if layer.startswith("entry_") else ans["ok"]
             return {"ok": canon_for_model(j, op.get("_arg", False))}
